@@ -30,7 +30,9 @@ theorem sendFromModule_mf {s s1 : St} {q q1 : Seq} {amt : Nat} {to : Addr}
   · cases e
   · split at e
     · cases e
-    · injection e with e; injection e with e1 e2; subst e1; subst e2; exact ⟨rfl, rfl, rfl, rfl, rfl⟩
+    · split at e
+      · cases e
+      · injection e with e; injection e with e1 e2; subst e1; subst e2; exact ⟨rfl, rfl, rfl, rfl, rfl⟩
 
 theorem burn_mf {s s1 : St} {q q1 : Seq} {amt : Nat} (e : burn s q amt = .ok (s1, q1)) : MoneyFrame s s1 q q1 := by
   unfold burn at e; split at e
